@@ -130,7 +130,13 @@ def mean_case(case):
         mkid = {'distinct': lambda i: b'c%d' % i, 'same': lambda i: b'', 'pairs': lambda i: b'c%d' % (i // 2)}[idm]
         trees = [make_tree(kind, k, seed, as_jax) for k in range(n)]
         snaps = [snapshot(t) for t in trees]
-        pairs = [(trees[i], ws[i]) for i in order]
+        # weights may arrive as Python numbers or as (narrow) NumPy / JAX scalars, e.g. taken from a uint8 count array;
+        # every weight fits its type, their SUM need not
+        wt = case.get('wtype')
+        conv_w = {None: lambda w: w, 'uint8': lambda w: np.uint8(w * 60), 'int8': lambda w: np.int8(w * 60),
+                  'int16': lambda w: np.int16(w * 12000), 'jint8': lambda w: __import__('jax').numpy.int8(w * 60),
+                  }[wt]
+        pairs = [(trees[i], conv_w(ws[i])) for i in order]
         if n > 1 and evals % 3 == 0:
           # an aggregation whose input stream fails after the first client must leave nothing behind
           def failing():
@@ -230,7 +236,12 @@ def clip_case(case):
   for mult in ([case['mult']] if 'mult' in case else [0.25, 0.5, 1.0, 1.5, 2.0, 4.0, 'huge']):
     nc = dict(case, mult=mult)
     bound = 1e6 if mult == 'huge' else (mult * norm if norm > 0 else float(mult))
+    if case.get('btype'):
+      # the bound given as an integer (Python int, NumPy / JAX int32 scalar) - large ones included (50000**2 > 2**31)
+      bound = {'int': int, 'np_int32': np.int32, 'jnp_int32': lambda v: jnp.asarray(v, jnp.int32),
+               'np_int64': np.int64}[case['btype']](max(1, int(round(bound))))
     out = tree_util.tree_clip_by_global_norm(tree, bound)
+    bound = float(bound)
     got = [np.asarray(l, np.float64) for l in leaves(out)]
     onorm = float(np.sqrt(sum(np.sum(g ** 2) for g in got)))
     require(all(np.all(np.isfinite(g)) for g in got), 'clipping produced non-finite values', case=nc)
@@ -302,10 +313,16 @@ def plan(ctx):
             continue
           mc.append({'tree': tree, 'weights': list(ws), 'jax': as_jax, 'seed': ctx.seed,
                      'all_orders': n <= 3 or th})
+  for wt in ('uint8', 'int8', 'int16', 'jint8'):
+    for ws in ([2.0, 2.0, 1.0], [2.0, 2.0, 2.0, 2.0], [0.0, 0.0], [1.0, 2.0], [2.0, 2.0]):
+      for tree in ('vec', 'nested'):
+        mc.append({'tree': tree, 'weights': ws, 'jax': True, 'seed': ctx.seed, 'all_orders': False, 'wtype': wt})
   ctx.pmap('mean', mc, chunk=24)
   ctx.run('sum', [{'tree': t, 'n': n, 'jax': j, 'seed': ctx.seed} for t in TREES for n in (1, 2, 3, 4)
                   for j in (True, False) if th or n <= 3 or j])
   ctx.run('clip', [{'tree': t, 'k': k, 'jax': j, 'seed': ctx.seed, 'zero': z} for t in TREES[:5] for k in range(3)
                    for j in (True, False) for z in (False, True) if not (z and k)] +
           [{'tree': t, 'k': k, 'jax': j, 'seed': ctx.seed, 'zero': False, 'scale': sc} for t in TREES[:5] for k in range(2)
-           for j in (True, False) for sc in (1e-8, 1e-7, 1e-4, 1e4, 1e12)])
+           for j in (True, False) for sc in (1e-8, 1e-7, 1e-4, 1e4, 1e12)] +
+          [{'tree': t, 'k': 0, 'jax': True, 'seed': ctx.seed, 'zero': z, 'scale': sc, 'btype': bt}
+           for t in ('vec', 'nested') for bt in ('int', 'np_int32', 'jnp_int32', 'np_int64') for z, sc in ((False, 1.0), (False, 1e4), (False, 1e6), (True, 1.0))])
